@@ -212,6 +212,32 @@ theorem C16_reject (u : Units) (s : String) (v : Int) (h : u.parseInt s = some v
     · rw [← h3, hsk]; exact hnn
     · rw [hv, h4, h5]; rfl
 
+/-- **C16 as far as it is proved** (the `_partial` of BUILDING.md): the whole integer half of the
+    property for a well-formed definition - both round trips, the grammar with exact value or
+    rejection on overflow, and rejection of every string outside the grammar.
+    MISSING: the float clause ("within floating-point tolerance" for `FormatShortFloat` /
+    `FormatLongFloat` followed by `ParseFloat`); `%f`, `strconv.ParseFloat` and the formatter's float
+    arithmetic are externals of the model, so that clause is covered by the harness oracle and the
+    `UNITS_PARSEF` correspondence only. -/
+theorem C16_partial (u : Units) (hu : WFu u) :
+    (∀ n : Int, 0 ≤ n → inInt64 n = true →
+      u.parseInt (u.formatShortInt n) = some n ∧ u.parseInt (u.formatLongInt n) = some n) ∧
+    (∀ (lead trail : List Char) (ps : List (Option Piece)) (bp : Option Piece),
+      AllUni lead → AllUni trail → PiecesOK ((sortDesc u.mults).map (·.2.all)) ps →
+      BaseOK u.base.all bp → renderAll ps bp ≠ [] →
+      u.parseInt (String.ofList (lead ++ (renderAll ps bp ++ trail))) =
+        if renderTotal ps bp ((sortDesc u.mults).map (·.1)) ≤ maxInt64
+        then some (renderTotal ps bp ((sortDesc u.mults).map (·.1))) else none) ∧
+    (∀ (s : String) (v : Int), u.parseInt s = some v →
+      ∃ ps bp, PiecesOK ((sortDesc u.mults).map (·.2.all)) ps ∧ BaseOK u.base.all bp ∧
+        skipWS (trimSpace s.toList) = renderAll ps bp ∧ renderAll ps bp ≠ [] ∧
+        v = renderTotal ps bp ((sortDesc u.mults).map (·.1)) ∧ inInt64 v = true) := by
+  refine ⟨fun n h0 hn => ⟨C16_roundtrip_short u n hu h0 hn, C16_roundtrip_long u n hu h0 hn⟩,
+    fun lead trail ps bp h1 h2 h3 h4 h5 => C16_grammar u hu lead trail ps bp h1 h2 h3 h4 h5, ?_⟩
+  intro s v h
+  obtain ⟨ps, bp, h1, h2, h3, h4, _, h6, h7⟩ := C16_reject u s v h
+  exact ⟨ps, bp, h1, h2, h3, h4, h6, h7⟩
+
 /-! ### non-vacuity: the five built-in definitions are well-formed; concrete evaluations -/
 
 example : WFu UnitBytes := by decide
@@ -283,3 +309,4 @@ end Arca
 #print axioms Arca.C16_grammar_overflow
 #print axioms Arca.C16_no_wrong_number
 #print axioms Arca.C16_reject
+#print axioms Arca.C16_partial
